@@ -13,7 +13,7 @@ from sim.seams import Env
 PROPERTY = "C17"
 LEVEL = "exploration"
 SCENARIOS = {"eeprom-pdos": 3, "sdo-pdos": 2, "ebpf-terminal": 2}
-TIERS = {"quick": {"runs": 4200, "chunk": 20}, "thorough": {"runs": 140000, "chunk": 100}}
+TIERS = {"quick": {"runs": 4200, "chunk": 20}, "thorough": {"runs": 50000000, "wall_s": 600, "chunk": 100, "recheck": 16}}
 RULE = ("one run = 1-3 simulated terminals, each with a tape-generated well-formed SII "
         "image (identity, 0-8 categories of distinct random types/lengths/contents, a "
         "sync-manager category with mailbox and/or process-data entries, TxPDO/RxPDO "
